@@ -8,7 +8,7 @@
 namespace Pint.Eval
 
 inductive TokKind
-  | op | number | name | endmarker | other
+  | op | number | name | endmarker | string | other
   deriving DecidableEq, Repr, Inhabited
 
 structure Token where
@@ -23,12 +23,13 @@ inductive Tree
   deriving Repr, Inhabited, DecidableEq
 
 inductive PErr
-  | unopened | weirdExit | unclosed | unexpectedEnd | assertion | index | fuel
+  | unopened | weirdExit | unclosed | unexpectedEnd | unknownOp | unexpectedString | assertion | index | fuel
   deriving DecidableEq, Repr, Inhabited
 
 def PErr.toString : PErr → String
   | .unopened => "DefinitionSyntaxError" | .weirdExit => "DefinitionSyntaxError"
   | .unclosed => "DefinitionSyntaxError" | .unexpectedEnd => "DefinitionSyntaxError"
+  | .unknownOp => "DefinitionSyntaxError" | .unexpectedString => "DefinitionSyntaxError"
   | .assertion => "AssertionError" | .index => "IndexError" | .fuel => "RecursionError"
 
 /-- `_OP_PRIORITY` as an association list (generated from the source) -/
@@ -94,7 +95,8 @@ def build (prio : Prio) (toks : Array Token) :
                   match build prio toks fuel (index + 1) (depth + 1) "unary" none with
                   | .error e => .error e
                   | .ok (right, idx) => .ok (.cont (some (.unary tok.text right)) idx))
-            | none => .ok (.cont result index)
+            | none => .error .unknownOp      -- an operator outside the grammar (F44 repair; the pinned code skipped it)
+        else if tok.kind == .string then .error .unexpectedString
         else if tok.kind == .number || tok.kind == .name then
           match result with
           | some r =>
